@@ -22,7 +22,7 @@ import c02_cmain as CM
 import c02_gen as G
 from exo.core.LoopIR import LoopIR, T
 
-WORK = common.SCRATCH / "c02"
+WORK = common.SCRATCH / "c02" / ("run%d" % os.getpid())  # private to this run (concurrent runs must not collide)
 
 
 # ---------------------------------------------------------------------------------------------- features
@@ -164,6 +164,8 @@ def features(ir, c_code: str):
         names.setdefault(str(sy), set()).add(sy)
     if any(len(v) > 1 for v in names.values()):
         f.tags.add("samename")
+    if any(re.fullmatch(r".*_\d+", nm) for nm in names):
+        f.tags.add("gennames")
     return f.tags
 
 
@@ -639,6 +641,45 @@ def foo(n: size, x: R[4], y: R[4]):
         y[2] = 1.0
     for i in seq(0, n):
         y[i] += 2.0
+''',
+    # user variables literally named like generated identifiers: the innermost `i` must become i_2 (not capture the
+    # loop variable i_1), the inlined local `t` must become t_2 (not collide with the user's t_1)
+    "generated_like_user_names": '''
+@proc
+def foo(x: R[2, 3, 4], y: R[3, 4], z: R[4]):
+    for i in seq(0, 2):
+        for i_1 in seq(0, 3):
+            for i in seq(0, 4):
+                y[i_1, i] += x[1, i_1, i]
+    for x_1 in seq(0, 2):
+        w = y[x_1, 0:4]
+        for x_1 in seq(1, 3):
+            w_1 = y[2, 1:4]
+            w[x_1] = w_1[x_1 - 1] + 1.0
+    for i_1 in seq(0, 2):
+        for i_2 in seq(0, 2):
+            for i_1 in seq(0, 2):
+                for i_1 in seq(1, 3):
+                    z[i_2 + i_1] += 1.0
+''',
+    "generated_like_user_locals": '''
+@proc
+def sub(dst: [R][4], src: [R][4]):
+    t: R
+    t = src[1]
+    for i in seq(0, 4):
+        dst[i] += t
+
+@proc
+def foo(z: R[4], u: R[4]):
+    t: R
+    t = 2.0
+    t_1: R
+    t_1 = 3.0
+    sub(z[0:4], u[0:4])
+    z[0] += t + t_1
+
+foo = inline(foo, "sub(_, _)")
 ''',
     "instr_calls": '''
 @instr("for (int q_ = 0; q_ < {n}; q_++) (&{dst_data})[q_ * {dst}.strides[0]] += 2.0f * {src}.data[({n} - 1 - q_) * {src}.strides[0]];")
